@@ -49,6 +49,20 @@ def git_rc(cwd, *args):
 
 FILTER_CMD = 'sed s/MARK/KRAM/'
 
+ROOT_MARK = '{ROOT}'
+
+
+def expand(word, root):
+    """scenarios cannot know the name of the temporary directory: a word starting with {ROOT} stands for the
+    ABSOLUTE path of the repository root followed by the rest of the word (absolute path filters)"""
+    if isinstance(word, str) and word.startswith(ROOT_MARK): return root + word[len(ROOT_MARK):]
+    return word
+
+
+def expand_all(words, root):
+    if words is None or isinstance(words, str): return expand(words, root)
+    return [expand(w, root) for w in words]
+
 
 def build(base, sc):
     root = os.path.join(base, *sc['root_rel'].split('/'))
@@ -167,7 +181,12 @@ def git_facts(base, root, cwd, sc, ra, rb, paths, popped):
     facts['name_status_rc'] = p.returncode
     facts['name_status'] = parse_z(p.stdout.decode('utf-8', 'replace'), False) if p.returncode == 0 else []
     # T1: the abstract entries, asked from the root with the paths prefixed by the popped directories
-    pre = [('/'.join(popped + [q])) for q in paths] if paths else []
+    def at_root(q):
+        if not os.path.isabs(q): return '/'.join(popped + [q])
+        n = os.path.normpath(q)                      # an absolute filter does not depend on the caller's directory
+        if n == root: return '.'
+        return n[len(root) + 1:] if n.startswith(root + os.sep) else q
+    pre = [at_root(q) for q in paths] if paths else []
     facts['prefixed_paths'] = pre
     p = subprocess.run(['git', 'diff', '--raw', '-z', '-M', '--abbrev=40'] + da + ((['--'] + pre) if pre else []),
                        cwd=root, env=GIT_ENV, capture_output=True)
@@ -236,19 +255,21 @@ def run_query(sc, root, cwd):
     obs['cwd0'] = os.getcwd()
     try:
         if q['mode'] == 'api':
-            gen = G.changed_notebooks(ref_to_api(q['ref_a'], G), ref_to_api(q['ref_b'], G), q['paths'])
+            gen = G.changed_notebooks(ref_to_api(q['ref_a'], G), ref_to_api(q['ref_b'], G), expand_all(q['paths'], root))
             for fa, fb in gen:
                 obs['yields'].append([desc(fa, MISSING), desc(fb, MISSING), os.getcwd()])
         else:
             import nbdime.nbdiffapp as A
             calls = []; handled = []
+            marked = {expand(w, root): w for w in q['argv'] if w != expand(w, root)}
+            unexpand = lambda w: marked.get(w, w)     # recorded calls name the scenario's words, not the temporary directory
             orig_cn = A.changed_notebooks
             orig_hd = A._handle_diff
 
             def cn(base, remote, paths=None, *a, **kw):
                 calls.append([base if base is None or isinstance(base, str) else repr(base),
                               remote if remote is None or isinstance(remote, str) else repr(remote),
-                              paths if paths is None or isinstance(paths, str) else list(paths)])
+                              unexpand(paths) if paths is None or isinstance(paths, str) else [unexpand(w) for w in paths]])
                 for fa, fb in orig_cn(base, remote, paths, *a, **kw):
                     obs['yields'].append([desc(fa, MISSING), desc(fb, MISSING), os.getcwd()])
                     yield fa, fb
@@ -265,7 +286,7 @@ def run_query(sc, root, cwd):
             A.changed_notebooks = cn; A._handle_diff = hd
             so = sys.stdout; sys.stdout = io.StringIO()
             try:
-                obs['status'] = A.main(list(q['argv']))
+                obs['status'] = A.main(expand_all(list(q['argv']), root))
             finally:
                 sys.stdout = so
                 A.changed_notebooks = orig_cn; A._handle_diff = orig_hd
@@ -282,13 +303,14 @@ def run_query(sc, root, cwd):
     return obs
 
 
-def is_ref_table(cwd, words):
+def is_ref_table(cwd, words, root=None):
     """independent reading of gitfiles.is_gitref: not an existing path (relative to cwd) and names a commit"""
     t = {}
-    for w in words:
+    for w0 in words:
+        w = expand(w0, root) if root else w0
         exists = os.path.exists(os.path.join(cwd, w))
         valid = git_rc(cwd, 'rev-parse', '--verify', '--quiet', w + '^{commit}') == 0
-        t[w] = {'exists': exists, 'valid': valid, 'isref': (not exists) and valid and w != '/dev/null'}
+        t[w0] = {'exists': exists, 'valid': valid, 'isref': (not exists) and valid and w != '/dev/null'}
     return t
 
 
@@ -303,9 +325,10 @@ def one(sc, home):
         os.makedirs(cwd, exist_ok=True)
         res = {'base': base, 'root': root, 'cwd': cwd}
         if q['mode'] == 'cli':
-            res['reftable'] = is_ref_table(cwd, sorted(set(q['argv_pos'] + ['HEAD'])))
+            res['reftable'] = is_ref_table(cwd, sorted(set(q['argv_pos'] + ['HEAD'])), root)
         ra, rb, paths = q['ref_a'], q['ref_b'], q['paths']
         if isinstance(paths, str): paths = [paths]
+        paths = expand_all(paths, root)
         res['facts'] = git_facts(base, root, cwd, sc, ra, rb, paths or [], popped)
         res['obs'] = run_query(sc, root, cwd)
         res['snapshot_after'] = snapshot(base)
